@@ -186,6 +186,22 @@ def run(tier, seed, replay=None):
                         out.count("raw_scan", "approved-program")
                 except (lib.Timeout, RecursionError):
                     pass
+        # ---- function-level ties of the text guards and scanners (token-exhaustive, see harness/funcs.py); an input
+        # on which model and implementation differ is turned into programs (the neutral token becomes a logging
+        # command) and, when the implementation approves one, it joins the ground-truth run below
+        from . import funcs
+        diffs = funcs.run_ties(out, model, ["unclosed_arith", "count_openers", "plain_raw"], tier, rng, an)
+        for name, strs in diffs.items():
+            for raw in strs:
+                body = raw.replace("a", "rm x")
+                for tmpl in ("echo {R}", 'echo "{R}"', "cat <<EOF\n{R}\nEOF", "echo ${v:-{R}}", "(( {R} ))", "[[ a == {R} ]]"):
+                    text = tmpl.replace("{R}", body)
+                    try:
+                        if lib.with_timeout(lambda: an.analyze(text, cfg, Path(cwd)).action, 3.0) == "allow":
+                            approved.append((f"tie:{name}", text))
+                            out.count("raw_scan", "approved-program-from-tie-difference")
+                    except (lib.Timeout, RecursionError, Exception):
+                        pass
         model.close()
 
         # ground truth for every approved program, both branch polarities
